@@ -179,7 +179,9 @@ func (n *SimNet) add(c NetCall) {
 	n.Calls = append(n.Calls, c)
 	n.mu.Unlock()
 }
-func (n *SimNet) Protect(id peer.ID, tag string) { n.add(NetCall{What: "protect", To: PeerName(id), Tag: tag, Msg: NoMsg(), OK: true}) }
+func (n *SimNet) Protect(id peer.ID, tag string) {
+	n.add(NetCall{What: "protect", To: PeerName(id), Tag: tag, Msg: NoMsg(), OK: true})
+}
 func (n *SimNet) Unprotect(id peer.ID, tag string) bool {
 	n.add(NetCall{What: "unprotect", To: PeerName(id), Tag: tag, Msg: NoMsg(), OK: true})
 	return false
@@ -329,6 +331,7 @@ func (v VRes) Result() datatransfer.ValidationResult {
 }
 
 type VCall struct {
+	VType  string `json:"vtype"`  // the voucher type this validator is registered for
 	Method string `json:"method"` // push pull restart
 	Chid   string `json:"chid"`
 	From   string `json:"from"`
@@ -347,6 +350,7 @@ type ScriptValidator struct {
 func (s *ScriptValidator) out(c VCall) (datatransfer.ValidationResult, error) {
 	s.mu.Lock()
 	defer s.mu.Unlock()
+	c.VType = s.Type
 	s.Calls = append(s.Calls, c)
 	if s.Next.Err {
 		return s.Next.Result(), errors.New("validator error")
@@ -354,13 +358,13 @@ func (s *ScriptValidator) out(c VCall) (datatransfer.ValidationResult, error) {
 	return s.Next.Result(), nil
 }
 func (s *ScriptValidator) ValidatePush(chid datatransfer.ChannelID, sender peer.ID, voucher datamodel.Node, baseCid cid.Cid, selector datamodel.Node) (datatransfer.ValidationResult, error) {
-	return s.out(VCall{"push", chid.String(), PeerName(sender), VoucherName(datatransfer.TypedVoucher{Type: datatransfer.TypeIdentifier(s.Type), Voucher: voucher}), CidName(baseCid), SelectorName(selector)})
+	return s.out(VCall{"", "push", chid.String(), PeerName(sender), VoucherName(datatransfer.TypedVoucher{Type: datatransfer.TypeIdentifier(s.Type), Voucher: voucher}), CidName(baseCid), SelectorName(selector)})
 }
 func (s *ScriptValidator) ValidatePull(chid datatransfer.ChannelID, receiver peer.ID, voucher datamodel.Node, baseCid cid.Cid, selector datamodel.Node) (datatransfer.ValidationResult, error) {
-	return s.out(VCall{"pull", chid.String(), PeerName(receiver), VoucherName(datatransfer.TypedVoucher{Type: datatransfer.TypeIdentifier(s.Type), Voucher: voucher}), CidName(baseCid), SelectorName(selector)})
+	return s.out(VCall{"", "pull", chid.String(), PeerName(receiver), VoucherName(datatransfer.TypedVoucher{Type: datatransfer.TypeIdentifier(s.Type), Voucher: voucher}), CidName(baseCid), SelectorName(selector)})
 }
 func (s *ScriptValidator) ValidateRestart(chid datatransfer.ChannelID, channel datatransfer.ChannelState) (datatransfer.ValidationResult, error) {
-	return s.out(VCall{"restart", chid.String(), "", VoucherName(channel.Voucher()), CidName(channel.BaseCID()), SelectorName(channel.Selector())})
+	return s.out(VCall{"", "restart", chid.String(), "", VoucherName(channel.Voucher()), CidName(channel.BaseCID()), SelectorName(channel.Selector())})
 }
 func (s *ScriptValidator) N() int {
 	s.mu.Lock()
